@@ -10,16 +10,19 @@ package main
 //   P:b:k:cls:cont:meta:tags   PutObject (cls = N | hex class; cont = content id; meta/tags = ids, 0 = none)
 //   A:b:k:cont                 AppendObject
 //   C:sb:sk:sv:db:dk:cls       CopyObject
-//   T:b:k:v:hexcls             TransitionObjectStorageClass
-//   D:b:k:v                    DeleteObject (unversioned key / one version of the versioned bucket)
-//   R:b:k:v                    read: class|content ids|meta|tags|store of every part
+//   T:b:k:v:hexcls:im          TransitionObjectStorageClass; im = N | * | e<ordinal> (If-Match with the ETag of that row)
+//   D:b:k:v                    DeleteObject (by key: row removed / delete marker added; by version id: that row removed)
+//   V:b:E|S                    PutBucketVersioningConfiguration Enabled / Suspended
+//   R:b:k:v                    read: class|content ids|meta|tags|store of every part|etag style
 //   N                          number of distinct contents held per store
 //   S                          sweep: R of every key and version + N
-// b = 0 unversioned bucket | 1 versioning-enabled bucket; v = L | version ordinal.
+// b = 0 (starts unversioned) | 1 (starts versioning-enabled); v = L (no version id) | ordinal of the row (its ULID or
+// "null" version id is sent) | X (the literal version id "null") | U (a well-formed id that no row has).
 
 import (
 	"bytes"
 	"context"
+	"errors"
 	"fmt"
 	"io"
 	"log/slog"
@@ -113,9 +116,12 @@ func c14Release(pe *c14Pooled) {
 }
 
 type c14Ver struct {
-	b, k int
-	id   string
+	b, k  int
+	id    string // version id of the row ("null" or a ULID)
+	alive bool
 }
+
+const c14UnknownVersion = "01ARZ3NDEKTSV4RRFFQ69G5FAV"
 type c14Env struct {
 	pe      *c14Pooled
 	seq     int
@@ -124,6 +130,7 @@ type c14Env struct {
 	mapping map[string]int // class -> store index (the oracle's own copy of the configuration)
 	base    [3]int
 	buckets [2]string
+	status  [2]string // "U" unversioned, "E" enabled, "S" suspended
 	vers    []c14Ver
 	orc     *c14Oracle
 	tags    map[string]bool
@@ -236,32 +243,87 @@ func (e *c14Env) decode(body []byte) string {
 func (e *c14Env) bucket(b int) storage.BucketName { return storage.MustNewBucketName(e.buckets[b]) }
 func c14Key(k int) storage.ObjectKey               { return storage.MustNewObjectKey(c11Keys[k]) }
 
+// resolves a version selector: the version id to send (nil = none) and whether the selector is usable
 func (e *c14Env) ver(b, k int, v string) (vid *string, known bool) {
-	if v == "L" {
+	switch v {
+	case "L":
 		return nil, true
+	case "X":
+		s := "null"
+		return &s, true
+	case "U":
+		s := c14UnknownVersion
+		return &s, true
 	}
 	n, err := strconv.Atoi(v)
-	if err != nil || n < 0 || n >= len(e.vers) || e.vers[n].b != b || e.vers[n].k != k || e.vers[n].id == "" {
+	if err != nil || n < 0 || n >= len(e.vers) || e.vers[n].b != b || e.vers[n].k != k || !e.vers[n].alive {
 		return nil, false
 	}
 	s := e.vers[n].id
 	return &s, true
 }
-func (e *c14Env) noteVersion(b, k int) {
-	if b != 1 {
-		return
+
+// ordinal of the alive row of (b,k) with that version id, -1 if none
+func (e *c14Env) ordOf(b, k int, id string) int {
+	for n, v := range e.vers {
+		if v.alive && v.b == b && v.k == k && v.id == id {
+			return n
+		}
 	}
+	return -1
+}
+
+// the ordinal a selector addresses right now (L: whatever the implementation reports as current), -1 if none
+func (e *c14Env) addressed(b, k int, v string) int {
+	switch v {
+	case "L":
+		o, err := e.st.HeadObject(c14Ctx, e.bucket(b), c14Key(k), nil)
+		if err == nil && o.VersionID != nil {
+			return e.ordOf(b, k, *o.VersionID)
+		}
+		var dm *storage.CurrentDeleteMarkerError
+		if errors.As(err, &dm) {
+			return e.ordOf(b, k, dm.VersionID)
+		}
+		return -1
+	case "X":
+		return e.ordOf(b, k, "null")
+	case "U":
+		return -1
+	}
+	n, err := strconv.Atoi(v)
+	if err != nil || n < 0 || n >= len(e.vers) || !e.vers[n].alive || e.vers[n].b != b || e.vers[n].k != k {
+		return -1
+	}
+	return n
+}
+
+// a new row was created with this version id: a new ordinal; an older "null" row of the key is gone
+func (e *c14Env) newRow(b, k int, id string) int {
+	if id == "null" {
+		if n := e.ordOf(b, k, "null"); n >= 0 {
+			e.vers[n].alive = false
+		}
+	}
+	e.vers = append(e.vers, c14Ver{b, k, id, true})
+	return len(e.vers) - 1
+}
+func (e *c14Env) currentVid(b, k int) string {
 	o, err := e.st.HeadObject(c14Ctx, e.bucket(b), c14Key(k), nil)
-	vid := ""
 	if err == nil && o.VersionID != nil {
-		vid = *o.VersionID
+		return *o.VersionID
 	}
-	e.vers = append(e.vers, c14Ver{b, k, vid})
+	return ""
 }
 
 func c14ErrName(err error) string {
 	if err == nil {
 		return "ok"
+	}
+	var dm *storage.CurrentDeleteMarkerError
+	var vdm *storage.VersionDeleteMarkerMethodNotAllowedError
+	if errors.As(err, &dm) || errors.As(err, &vdm) {
+		return "DeleteMarker"
 	}
 	switch err {
 	case storage.ErrNoSuchKey:
@@ -278,13 +340,22 @@ func c14ErrName(err error) string {
 
 type c14Obs struct {
 	class, content, meta, tags, stores string
-	etag, vid                        string
+	etag, vid, partIDs               string
 	size                             int64
 	partsOK                          string // "" or why a part row does not point at stored bytes
 }
 
+// "s" = MD5-of-content ETag, "m<n>" = multipart-style ETag over n parts
+func c14EtagStyle(etag string) string {
+	e := strings.Trim(etag, "\"")
+	if i := strings.LastIndexByte(e, '-'); i >= 0 {
+		return "m" + e[i+1:]
+	}
+	return "s"
+}
+
 func (o *c14Obs) String() string {
-	return strings.Join([]string{tokBytes(o.class), o.content, o.meta, o.tags, o.stores}, "|")
+	return strings.Join([]string{tokBytes(o.class), o.content, o.meta, o.tags, o.stores, c14EtagStyle(o.etag)}, "|")
 }
 
 func c14ID(m map[string]string, key string) string {
@@ -327,8 +398,9 @@ func (e *c14Env) read(b, k int, v string) (*c14Obs, string) {
 	if perr != nil {
 		return nil, "PartsErr(" + perr.Error() + ")"
 	}
-	var ss []string
+	var ss, pids []string
 	for _, p := range parts {
+		pids = append(pids, p.Id.String())
 		idx := -1
 		for i, n := range c14StoreNames {
 			if n == p.Store {
@@ -347,6 +419,7 @@ func (e *c14Env) read(b, k int, v string) (*c14Obs, string) {
 	if len(ss) > 0 {
 		o.stores = strings.Join(ss, ".")
 	}
+	o.partIDs = strings.Join(pids, ".")
 	return o, ""
 }
 
@@ -383,6 +456,31 @@ func (e *c14Env) counts() string {
 	return fmt.Sprintf("%d,%d,%d", c[0], c[1], c[2])
 }
 
+// observation of every alive row of a key: ordinal -> rendering (incl. ETag, part ids) or error code
+func (e *c14Env) snapshot(b, k int) map[int]string {
+	m := map[int]string{}
+	for n, v := range e.vers {
+		if !v.alive || v.b != b || v.k != k {
+			continue
+		}
+		o, errc := e.read(b, k, strconv.Itoa(n))
+		if o == nil {
+			m[n] = errc
+		} else {
+			m[n] = o.String() + "|" + o.etag + "|" + o.partIDs + "|" + o.partsOK
+		}
+	}
+	return m
+}
+
+func c14Sel(t string) bool {
+	if t == "L" || t == "X" || t == "U" {
+		return true
+	}
+	n, err := strconv.Atoi(t)
+	return err == nil && n >= 0 && strconv.Itoa(n) == t
+}
+
 func (e *c14Env) op(tok string) string {
 	bad := "BadOp"
 	if strings.HasPrefix(tok, "M=") {
@@ -411,6 +509,23 @@ func (e *c14Env) op(tok string) string {
 	}
 	f := strings.Split(tok, ":")
 	switch f[0] {
+	case "V":
+		if len(f) != 3 || (f[2] != "E" && f[2] != "S") {
+			return bad
+		}
+		b, ok := c11Int(f[1], 2)
+		if !ok {
+			return bad
+		}
+		st := storage.BucketVersioningStatusEnabled
+		if f[2] == "S" {
+			st = storage.BucketVersioningStatusSuspended
+		}
+		if err := e.st.PutBucketVersioningConfiguration(c14Ctx, e.bucket(b), &storage.BucketVersioningConfiguration{Status: &st}); err != nil {
+			return c14ErrName(err)
+		}
+		e.status[b] = f[2]
+		return "ok"
 	case "P":
 		if len(f) != 7 {
 			return bad
@@ -431,12 +546,17 @@ func (e *c14Env) op(tok string) string {
 		if tg > 0 {
 			opts.Tags = map[string]string{"t": strconv.Itoa(tg)}
 		}
-		_, err := e.st.PutObject(c14Ctx, e.bucket(b), c14Key(k), nil, bytes.NewReader(e.content(cont)), nil, opts)
+		res, err := e.st.PutObject(c14Ctx, e.bucket(b), c14Key(k), nil, bytes.NewReader(e.content(cont)), nil, opts)
 		st := c14ErrName(err)
+		n := -1
 		if st == "ok" {
-			e.noteVersion(b, k)
+			vid := "null"
+			if res.VersionID != nil {
+				vid = *res.VersionID
+			}
+			n = e.newRow(b, k, vid)
 		}
-		e.orc.put(b, k, cls, cont, meta, tg, st)
+		e.orc.put(n, b, k, cls, cont, meta, tg, st)
 		return st
 	case "A":
 		if len(f) != 4 {
@@ -448,16 +568,26 @@ func (e *c14Env) op(tok string) string {
 		if !ok1 || !ok2 || e1 != nil || cont < 0 {
 			return bad
 		}
+		if e.status[b] == "S" {
+			return bad // not exercised: C02 finding (in-place update of whatever row is current)
+		}
+		prev := e.addressed(b, k, "L")
 		_, err := e.st.AppendObject(c14Ctx, e.bucket(b), c14Key(k), bytes.NewReader(e.content(cont)), nil, nil)
 		st := c14ErrName(err)
+		n := -1
+		inPlace := false
 		if st == "ok" {
-			e.noteVersion(b, k)
+			if e.status[b] == "U" && e.ordOf(b, k, "null") >= 0 {
+				n, inPlace = e.ordOf(b, k, "null"), true
+			} else {
+				n = e.newRow(b, k, e.currentVid(b, k))
+			}
 		}
 		var after *c14Obs
 		if st == "ok" {
 			after, _ = e.read(b, k, "L")
 		}
-		e.orc.appendOp(b, k, cont, st, after)
+		e.orc.appendOp(n, inPlace, prev, b, k, cont, st, after)
 		return st
 	case "C":
 		if len(f) != 7 {
@@ -468,87 +598,132 @@ func (e *c14Env) op(tok string) string {
 		db, ok3 := c11Int(f[4], 2)
 		dk, ok4 := c11Int(f[5], 3)
 		cls, ok5 := c14Cls(f[6])
-		if !ok1 || !ok2 || !ok3 || !ok4 || !ok5 {
+		if !ok1 || !ok2 || !ok3 || !ok4 || !ok5 || !c14Sel(f[3]) {
 			return bad
-		}
-		if f[3] != "L" {
-			if _, err := strconv.Atoi(f[3]); err != nil {
-				return bad
-			}
 		}
 		vid, known := e.ver(sb, sk, f[3])
 		if !known {
 			return "NoSuchVersion"
 		}
-		_, err := e.st.CopyObject(c14Ctx, e.bucket(sb), c14Key(sk), e.bucket(db), c14Key(dk), &storage.CopyObjectOptions{SourceVersionID: vid, StorageClass: cls})
+		src := e.addressed(sb, sk, f[3])
+		res, err := e.st.CopyObject(c14Ctx, e.bucket(sb), c14Key(sk), e.bucket(db), c14Key(dk), &storage.CopyObjectOptions{SourceVersionID: vid, StorageClass: cls})
 		st := c14ErrName(err)
+		n := -1
 		if st == "ok" {
-			e.noteVersion(db, dk)
+			nv := "null"
+			if res.VersionID != nil {
+				nv = *res.VersionID
+			}
+			n = e.newRow(db, dk, nv)
 		}
-		e.orc.copy(sb, sk, f[3], db, dk, cls, st)
+		e.orc.copy(n, src, db, dk, cls, st)
 		return st
 	case "T", "D", "R":
-		want := map[string]int{"T": 5, "D": 4, "R": 4}[f[0]]
+		want := map[string]int{"T": 6, "D": 4, "R": 4}[f[0]]
 		if len(f) != want {
 			return bad
 		}
 		b, ok1 := c11Int(f[1], 2)
 		k, ok2 := c11Int(f[2], 3)
-		if !ok1 || !ok2 {
+		if !ok1 || !ok2 || !c14Sel(f[3]) {
 			return bad
-		}
-		if f[3] != "L" {
-			if _, err := strconv.Atoi(f[3]); err != nil {
-				return bad
-			}
 		}
 		vid, known := e.ver(b, k, f[3])
 		switch f[0] {
 		case "R":
+			if !known {
+				return "NoSuchVersion"
+			}
+			n := e.addressed(b, k, f[3])
 			o, errc := e.read(b, k, f[3])
 			if o == nil {
-				e.orc.readErr(b, k, f[3], errc)
+				e.orc.readErr(n, b, k, f[3], errc)
 				return errc
 			}
-			e.orc.read(b, k, f[3], o)
+			e.orc.read(n, b, k, f[3], o)
 			return o.String()
 		case "T":
 			cls, okc := c11Unhex(f[4])
 			if !okc {
 				return bad
 			}
-			if !known {
-				return "NoSuchVersion"
-			}
-			before, _ := e.read(b, k, f[3])
-			var opts *storage.TransitionObjectStorageClassOptions
-			if vid != nil {
-				opts = &storage.TransitionObjectStorageClassOptions{VersionID: vid}
-			}
-			err := e.st.TransitionObjectStorageClass(c14Ctx, e.bucket(b), c14Key(k), cls, opts)
-			st := c14ErrName(err)
-			after, _ := e.read(b, k, f[3])
-			e.orc.transition(b, k, f[3], cls, st, before, after)
-			return st
-		default: // D
-			if (b == 0) != (f[3] == "L") {
+			im := f[5]
+			if im != "N" && im != "*" && !(strings.HasPrefix(im, "e") && c14Sel(im[1:]) && im[1:] != "L" && im[1:] != "X" && im[1:] != "U") {
 				return bad
 			}
 			if !known {
-				e.orc.note("delete-unknown-version")
 				return "NoSuchVersion"
 			}
+			opts := &storage.TransitionObjectStorageClassOptions{VersionID: vid}
+			imETag := ""
+			if im == "*" {
+				star := "*"
+				opts.IfMatchETag = &star
+			} else if im != "N" {
+				ref, _ := e.read(b, k, im[1:])
+				if ref == nil {
+					return bad
+				}
+				imETag = ref.etag
+				opts.IfMatchETag = &imETag
+			}
+			target := e.addressed(b, k, f[3])
+			before := e.snapshot(b, k)
+			var bo *c14Obs
+			if target >= 0 {
+				bo, _ = e.read(b, k, strconv.Itoa(target))
+			}
+			err := e.st.TransitionObjectStorageClass(c14Ctx, e.bucket(b), c14Key(k), cls, opts)
+			st := c14ErrName(err)
+			after := e.snapshot(b, k)
+			var ao *c14Obs
+			if target >= 0 {
+				ao, _ = e.read(b, k, strconv.Itoa(target))
+			}
+			e.orc.transition(target, b, k, f[3], cls, im, imETag, st, bo, ao, before, after)
+			return st
+		default: // D
+			if !known {
+				return "NoSuchVersion"
+			}
+			target := e.addressed(b, k, f[3])
 			var opts *storage.DeleteObjectOptions
 			if vid != nil {
 				opts = &storage.DeleteObjectOptions{VersionID: vid}
 			}
-			_, err := e.st.DeleteObject(c14Ctx, e.bucket(b), c14Key(k), opts)
+			res, err := e.st.DeleteObject(c14Ctx, e.bucket(b), c14Key(k), opts)
 			st := c14ErrName(err)
-			if st == "ok" && vid != nil {
-				n, _ := strconv.Atoi(f[3])
-				e.vers[n].id = ""
+			marker := -1
+			var gone []int
+			if st == "ok" {
+				if f[3] != "L" {
+					if target >= 0 {
+						e.vers[target].alive = false
+						gone = append(gone, target)
+					}
+				} else {
+					switch e.status[b] {
+					case "U":
+						if target >= 0 {
+							e.vers[target].alive = false
+							gone = append(gone, target)
+						}
+					case "S":
+						if n := e.ordOf(b, k, "null"); n >= 0 {
+							e.vers[n].alive = false
+							gone = append(gone, n)
+						}
+						fallthrough
+					default:
+						mv := ""
+						if res != nil && res.VersionID != nil {
+							mv = *res.VersionID
+						}
+						marker = e.newRow(b, k, mv)
+					}
+				}
 			}
-			e.orc.delete(b, k, f[3], st)
+			e.orc.delete(gone, marker, b, k, st)
 			return st
 		}
 	case "N":
@@ -562,13 +737,14 @@ func (e *c14Env) op(tok string) string {
 		}
 		var parts []string
 		one := func(b, k int, v string) {
+			n := e.addressed(b, k, v)
 			o, errc := e.read(b, k, v)
 			if o == nil {
-				e.orc.readErr(b, k, v, errc)
+				e.orc.readErr(n, b, k, v, errc)
 				parts = append(parts, errc)
 				return
 			}
-			e.orc.read(b, k, v, o)
+			e.orc.read(n, b, k, v, o)
 			parts = append(parts, o.String())
 		}
 		for b := 0; b < 2; b++ {
@@ -577,7 +753,7 @@ func (e *c14Env) op(tok string) string {
 			}
 		}
 		for n, v := range e.vers {
-			if v.id != "" {
+			if v.alive {
 				one(v.b, v.k, strconv.Itoa(n))
 			}
 		}
@@ -601,7 +777,8 @@ func (c14) Run(in string, scratch string) Result {
 	c14CaseSeq++
 	seq := c14CaseSeq
 	c14PoolMu.Unlock()
-	e := &c14Env{pe: pe, seq: seq, tags: map[string]bool{}, orc: c14NewOracle()}
+	e := &c14Env{pe: pe, seq: seq, tags: map[string]bool{}, orc: c14NewOracle(), status: [2]string{"U", "E"}}
+	e.orc.alive = func(n int) bool { return n >= 0 && n < len(e.vers) && e.vers[n].alive }
 	if err := e.open(map[string]int{}); err != nil {
 		return Result{Out: "SETUP-ERROR " + err.Error(), Oracle: "FAIL:setup " + err.Error()}
 	}
